@@ -9,7 +9,7 @@ add("C11","exploration",
  "Trusted: the harness' query model and reference evaluator (internal/mq), Go regexp/strconv; lower-case operator/function names only.",
  "DESIGN.md §2 C11")
 add("C05","exploration",
- "runtime monitoring: seeded table/query/partition generator; the real server aggregator, wire messages and client merge run in worker processes (forced partial transmissions) and as real dmap over SSH against several servers (one or several files per server, results of a few and of thousands of groups); a wire tier re-issues the real server messages of a small table through the real serializer with counts and sums scaled to millions and billions and lets the real client side merge them; oracle = independent reference evaluator + central-vs-partitioned comparison of the observed CSV results",
+ "runtime monitoring: seeded table/query/partition generator; the real server aggregator, wire messages and client merge run in worker processes (forced partial transmissions) and as real dmap over SSH against several servers (one or several files per server, results of a few and of thousands of groups); a slow-client tier leaves a transmission of hundreds of groups in flight at the end of input; a wire tier re-issues the real server messages of a small table through the real serializer with counts and sums scaled to millions and billions and lets the real client side merge them; oracle = independent reference evaluator + central-vs-partitioned comparison of the observed CSV results",
  "Held on the generated (table, query, partition) triples and e2e runs counted in the evidence; partitions up to 4 servers x 3 files x 2 forced transmissions per file in-process, up to 5 servers e2e.",
  "Trusted: reference evaluator (internal/mq) written from the documentation, Go strconv; avg over non-numeric lines compared between runs only; e2e uses one file per server or several files behind one glob (comma lists are subject to the recorded command race c06.cmd-race; csv tables one file per server because the first line seen is the header).",
  "DESIGN.md §2 C05")
@@ -24,12 +24,12 @@ add("C01","exploration",
  "Trusted: compress/gzip, DataDog/zstd writer for test inputs; clients must run with --logLevel error; known findings c01.* are recognised by exact prediction only.",
  "DESIGN.md §2 C01")
 add("C12","exploration",
- "runtime monitoring: seeded generator of patterns/options containing the wire format's own delimiters; real dgrep end to end through encoder and server-side decoder (serverless, sample over SSH; overlapping sessions with opposite flags; multi-command sessions whose options must apply to every command; a real client's request bytes captured and replayed to the server in arbitrary pieces; patterns of 2-60 KB); oracle = lines selected by the user's pattern compiled with Go regexp in the harness + context model, and the output mode",
+ "runtime monitoring: seeded generator of patterns/options containing the wire format's own delimiters; real dgrep end to end through encoder and server-side decoder (serverless, sample over SSH; overlapping sessions with opposite flags; multi-command sessions whose options must apply to every command; a real client's request bytes captured and replayed to the server in arbitrary pieces; patterns of 2-60 KB; tall files with context/max values of the same order); oracle = lines selected by the user's pattern compiled with Go regexp in the harness + context model, and the output mode",
  "Held on the generated (pattern, flags, options, mode) combinations counted in the evidence.",
  "Trusted: Go regexp; C03's reference context model; patterns without NUL/0xAC.",
  "DESIGN.md §2 C12")
 add("C16","exploration",
- "runtime monitoring: seeded message/stream generator; Colorfy (alone and from 12 goroutines at once) and the real client handlers run in crash-isolated child processes (coloured vs uncoloured stdout compared after stripping SGR sequences; uncoloured output compared with the message sequence); harness-controlled SSH servers play the streams to the real dcat/dmap/dtailhealth binaries (one server, and six at once with client log lines in between)",
+ "runtime monitoring: seeded message/stream generator; Colorfy (alone and from 12 goroutines at once) and the real client handlers run in crash-isolated child processes (coloured vs uncoloured stdout compared after stripping SGR sequences; uncoloured output compared with the message sequence); harness-controlled SSH servers play the streams to the real dcat/dmap/dtailhealth binaries (one server, six at once with client log lines in between, dmap against four servers delivering the same 20000 groups at once)",
  "Held on the generated messages and streams counted in the evidence.",
  "Trusted: the SGR-strip regexp; both sides are stripped when the message itself contains ESC.",
  "DESIGN.md §2 C16")
@@ -49,17 +49,17 @@ add("C14","exploration",
  "Trusted: x/crypto/ssh, porcupine v1.3.0; 'served' = answers a global request after authentication; client-side closes may linearize any time after their call.",
  "DESIGN.md §2 C14")
 add("C10","exploration",
- "runtime monitoring: grammar-aware hostile-input generator; inputs are applied to fresh real ServerHandlers in crash-isolated worker processes (input logged before application; each process starts cold with simultaneous many-file requests under a 10-rule permission list; mapreduce sessions over compressed files whose stream breaks and with every log format name of the parser factory; context options up to 2^63-1) and sent over SSH to a real server while a canary session of another user and health logins observe liveness; oracle = process survival, canary stream intact, health answers OK",
+ "runtime monitoring: grammar-aware hostile-input generator; inputs are applied to fresh real ServerHandlers in crash-isolated worker processes (input logged before application; each process starts cold with simultaneous many-file requests under a 10-rule permission list; mapreduce sessions over compressed files whose stream breaks and with every log format name of the parser factory; context options up to 2^63-1; sessions over 150000 groups lasting several report intervals) and sent over SSH to a real server while a canary session of another user and health logins observe liveness; oracle = process survival, canary stream intact, health answers OK",
  "Held on the hostile inputs counted in the evidence (command x argument count x fault-class cells); no behavioural expectation beyond survival and an error/close for the offender.",
  "Trusted: the harness SSH client; crash attribution names the culprit and its five predecessors.",
  "DESIGN.md §2 C10")
 add("C13","exploration",
- "runtime monitoring: seeded session histories (open/drain/cancel-while-running/cancel-while-waiting/bursts/bursts of sessions hanging up right after their command) driven by a harness SSH client against in-process servers, files that vanish while their read is queued and come back; plus the server's own continuous and scheduled jobs and serverless clients (files open in the client process); hook-free observation of the files the server process holds open (/proc/<pid>/fd sampled every 5 ms and at quiescent points) plus an online monitor over the limiter hook trace (acquisitions - releases within [0, limit], every release preceded by its acquisition)",
+ "runtime monitoring: seeded session histories (open/drain/cancel-while-running/cancel-while-waiting/bursts/bursts of sessions hanging up right after their command) driven by a harness SSH client against in-process servers, files that vanish while their read is queued and come back; sessions with three commands cut off; plus the server's own continuous and scheduled jobs and serverless clients (files open in the client process); hook-free observation of the files the server process holds open (/proc/<pid>/fd sampled every 5 ms and at quiescent points) plus an online monitor over the limiter hook trace (acquisitions - releases within [0, limit], every release preceded by its acquisition)",
  "Held on the histories counted in the evidence (cat limit 1-3, tail limit 1-2, two users); cancellations while waiting actually achieved are counted.",
  "Trusted: /proc fd view; a blocked cat reader keeps its file open; hook call sites srv.lim.* (the /proc observation decides, the trace cross-checks).",
  "DESIGN.md §2 C13")
 add("C02","exploration",
- "runtime monitoring: real dcat/dgrep (serverless and over SSH) with a harness-owned, size-limited stdout pipe read by seeded pacing programs (fast, slow, stalls of 0.15-16 s placed around the queue/pipe/window boundaries), sessions of killed clients before judged ones, files rotated or unlinked during a slow read, grep sessions that select nothing for seconds while a 350 MB read goes on, servers that answer only seconds after the client started, race-detector pass in the thorough tier; every line carries (file, sequence number, CRC), some are 40-330 KB long; oracle = exactly-once in-order delivery per file, exit status 0, termination by a logical-time hang rule; hook traces attribute losses of multi-command sessions to the recorded finding",
+ "runtime monitoring: real dcat/dgrep (serverless and over SSH) with a harness-owned, size-limited stdout pipe read by seeded pacing programs (fast, slow, stalls of 0.15-16 s placed around the queue/pipe/window boundaries), sessions of killed clients before judged ones, files rotated or unlinked during a slow read, grep sessions that select nothing for seconds while a 350 MB read goes on, servers that answer only seconds after the client started, wildcards that also match paths the server refuses, race-detector pass in the thorough tier; every line carries (file, sequence number, CRC), some are 40-330 KB long; oracle = exactly-once in-order delivery per file, exit status 0, termination by a logical-time hang rule; hook traces attribute losses of multi-command sessions to the recorded finding",
  "Held on the sessions counted in the evidence (pacing x size x files x limit x transport cells, distinct hook-order signatures).",
  "Trusted: /proc-based idle detection; finding c02.cmd-race is only accepted for multi-command sessions with suffix-only loss and a trace showing shutdown before a later command.",
  "DESIGN.md §2 C02")
@@ -79,12 +79,12 @@ add("C04","exploration",
  "Trusted: /proc fdinfo offsets; regime a = queue can never be full; regime b without filter; append-only writers.",
  "DESIGN.md §2 C04")
 add("C15","fault_enumeration",
- "runtime monitoring with fault injection: kill points of the real dmap are enumerated (every out.* hook event of a reference run is re-run with SIGKILL delivered exactly there; under strace SIGKILL is injected at the N-th syscall touching the four paths and the position hit is read back; write faults: from the N-th write on every write to those paths fails with ENOSPC); the non-cumulative client of the server's continuous jobs runs in worker processes, is cancelled at various points and watched the same way, after each kill the on-disk state is judged; a watcher re-reads the outfile continuously during un-killed runs; some scenarios put the outfile on another filesystem than the temporary directory; earlier runs against an outfile spell their query differently",
+ "runtime monitoring with fault injection: kill points of the real dmap are enumerated (every out.* hook event of a reference run is re-run with SIGKILL delivered exactly there; under strace SIGKILL is injected at the N-th syscall touching the four paths and the position hit is read back; write faults: from the N-th write on every write to those paths fails with ENOSPC); the non-cumulative client of the server's continuous jobs runs in worker processes, is cancelled at various points and watched the same way, after each kill the on-disk state is judged; a watcher re-reads the outfile continuously during un-killed runs; some scenarios put the outfile on another filesystem than the temporary directory; earlier runs against an outfile spell their query differently; the outfile of a scheduled job lasting longer than the scheduler's period is watched as well",
  "All listed hook kill points of the quick scenarios are hit (counts in the evidence); syscall-level positions are enumerated for the small scenarios and listed as hit / not hit.",
  "Trusted: strace's path filter and injection; hook call sites out.* (strace tier is hook-free); a kill inside one write(2) is not separately reachable.",
  "DESIGN.md §2 C15")
 add("C17","exploration",
- "runtime monitoring: seeded known_hosts layouts and prompt scripts (answers, no answer, end of input at once or after a non-answer, hosts approved in two separate prompts of one run); the real dcat/dtail run against harness-controlled SSH servers with chosen (and changing) host keys, known_hosts edited while the client is connected, known_hosts that cannot be parsed; oracle = per server, shell opened and command bytes received (server-side event log) iff trusted, plus a structural comparison of known_hosts before and after and a prompt-free second run",
+ "runtime monitoring: seeded known_hosts layouts and prompt scripts (answers, no answer, end of input at once or after a non-answer, hosts approved in two separate prompts of one run; trust-all against eight unknown servers at once with thousands of old entries); the real dcat/dtail run against harness-controlled SSH servers with chosen (and changing) host keys, known_hosts edited while the client is connected, known_hosts that cannot be parsed; oracle = per server, shell opened and command bytes received (server-side event log) iff trusted, plus a structural comparison of known_hosts before and after and a prompt-free second run",
  "Held on the cases counted in the evidence (entry kinds x answers; reconnect cases with a changed host key).",
  "Trusted: x/crypto/ssh/knownhosts for generating test entries (also used by the subject); clients run with --logger none.",
  "DESIGN.md §2 C17")
